@@ -250,15 +250,30 @@ def gen_plan(seed, index, tier):
             # fall back to a trivially complete geometry
             ykind, akind, n, bs, ep, mi, cb_returns, want_incomplete = "bin_int", "bin_int", 12, 4, 1, -1, [], False
         d = rng.randint(1, 4)
-        hidden = lambda: [x for _ in range(rng.choice([0, 0, 1, 2]))  # noqa: E731
-                          for x in (rng.randint(1, 6), rng.choice(["sigmoid", "leaky_relu"]))]
+        min_slice = min(h - l for l, h in ref_schedule(n, bs, ep, mi, cb_returns)[0])
+
+        def hidden():
+            out = []
+            for _ in range(rng.choice([0, 0, 1, 2])):
+                out.append(rng.randint(2, 6))
+                r = rng.random()
+                if r < 0.2 and min_slice >= 2:
+                    out.append("bn")       # BatchNorm1d: behaves differently in train and eval mode
+                elif r < 0.35:
+                    out.append("dropout")  # Dropout(0.3): ditto, and consumes the torch RNG while training
+                out.append(rng.choice(["sigmoid", "leaky_relu"]))
+            return out
+
         plan.update(n=n, batch_size=bs, epochs=ep, max_iter=mi, cb_returns=cb_returns, ykind=ykind, akind=akind, d=d,
                     later_slice_incomplete=want_incomplete, pm=hidden(), am=hidden(),
                     opt=rng.choice(["SGD", "Adam"]), lr=rng.choice([0.01, 0.05, 0.1]), alpha=rng.choice([0.0, 0.5, 1.0, 2.0]),
                     constraints=rng.choice(["demographic_parity", "equalized_odds"]), rs=rng.randint(0, 10**6),
                     progress_updates=rng.choice([None, None, 0.5]),
                     prior_fits=rng.choice([0, 0, 0, 1, 1, 2]), warm_start=(rng.random() < 0.5),
+                    cb_peek=[rng.random() < 0.5 for _ in cb_returns], b_peek=rng.random() < 0.3,
                     public=rng.random() < 0.35)
+        if "bn" in plan["pm"] + plan["am"] and plan["prior_fits"] and not plan["warm_start"]:
+            plan["warm_start"] = True
         plan["clock"] = _clock_decisions(rng, 2 + 2 * 125, plan["progress_updates"] is not None)
         plan["xs"] = [[round(rng.uniform(-1, 1), 3) for _ in range(d)] for _ in range(n)]
         plan["xq"] = [[round(rng.uniform(-1.5, 1.5), 3) for _ in range(d)] for _ in range(rng.randint(1, 8))]
@@ -336,7 +351,8 @@ def execute(plan, ctx):
 
 
 def _callbacks(plan):
-    cbs = [seams.ScriptedCallback(k, r) for k, r in enumerate(plan["cb_returns"])]
+    peek = plan.get("cb_peek") or []
+    cbs = [seams.ScriptedCallback(k, r, peek=(k < len(peek) and peek[k])) for k, r in enumerate(plan["cb_returns"])]
     if not cbs:
         return None
     if plan.get("cb_as_callable") and len(cbs) == 1:
@@ -450,7 +466,7 @@ def _make_torch_estimator(plan, callbacks, epochs, batch_size, max_iter):
     from fairlearn.adversarial import AdversarialFairnessClassifier, AdversarialFairnessRegressor
     from fairlearn.adversarial._adversarial_mitigation import _AdversarialFairness
 
-    common = dict(backend="torch", predictor_model=list(plan.get("pm", [])), adversary_model=list(plan.get("am", [])),
+    common = dict(backend="torch", predictor_model=_layers(plan.get("pm", [])), adversary_model=_layers(plan.get("am", [])),
                   predictor_optimizer=plan.get("opt", "SGD"), adversary_optimizer=plan.get("opt", "SGD"),
                   constraints=plan.get("constraints", "demographic_parity"), learning_rate=plan.get("lr", 0.1),
                   alpha=plan.get("alpha", 1.0), epochs=epochs, batch_size=batch_size, shuffle=False,
@@ -461,6 +477,24 @@ def _make_torch_estimator(plan, callbacks, epochs, batch_size, max_iter):
             return AdversarialFairnessRegressor(**common)
         return AdversarialFairnessClassifier(**common)
     return _AdversarialFairness(max_iter=max_iter, **common)
+
+
+def _layers(spec):
+    """List model spec with fresh torch modules for the 'bn' / 'dropout' tokens (never shared between estimators)."""
+    import torch
+
+    out, width = [], None
+    for item in spec:
+        if isinstance(item, int):
+            width = item
+            out.append(item)
+        elif item == "bn":
+            out.append(torch.nn.BatchNorm1d(width))
+        elif item == "dropout":
+            out.append(torch.nn.Dropout(0.3))
+        else:
+            out.append(item)
+    return out
 
 
 def _nonfinite_model(est):
@@ -474,9 +508,10 @@ def _nonfinite_model(est):
 
 
 def _params(est):
+    """Every tensor of both networks: parameters and buffers (e.g. BatchNorm running statistics)."""
     eng = est.backendEngine_
-    return [p.detach().clone() for p in eng.predictor_model.parameters()] + \
-           [p.detach().clone() for p in eng.adversary_model.parameters()]
+    return [v.detach().clone().float() for v in eng.predictor_model.state_dict().values()] + \
+           [v.detach().clone().float() for v in eng.adversary_model.state_dict().values()]
 
 
 def _exec_equiv(plan, ctx):
@@ -498,6 +533,12 @@ def _exec_equiv(plan, ctx):
     if later_bad:
         ctx.probe("later_slice_incomplete")
     sigbase = {"later_slice_incomplete": bool(later_bad)}
+    ctx.scratch["peek_X"] = Xq
+    if "bn" in list(plan.get("pm", [])) + list(plan.get("am", [])) and plan.get("prior_fits") and not plan.get("warm_start"):
+        # a BatchNorm *instance* in the list is a user-supplied, pre-initialised module: the documented rule is
+        # that such modules are never discarded, so a re-initialising refit legitimately keeps its trained state
+        ctx.trivial("stateful_module_instance_survives_reinit")
+        return
     # estimator A: fit under the planned geometry / stop / clock
     A = _make_torch_estimator(plan, _callbacks(plan), plan["epochs"], plan["batch_size"], plan["max_iter"])
     prior = plan.get("prior_fits", 0)
@@ -547,6 +588,10 @@ def _exec_equiv(plan, ctx):
         with ctx.clock_installed():
             ok, ret, site = ctx.call(B.partial_fit, X[lo:hi], y[lo:hi], **kw)
         ctx.ops += 1
+        if ok and plan.get("b_peek") and j % 2 == 0:
+            # a predict between two training steps must not change what the next step does
+            ctx.call(B.predict, Xq)
+            ctx.fault("predict_between_partial_fits")
         if not ok and _nonfinite_model(B):
             ctx.trivial("nan_model")
             return
@@ -736,6 +781,12 @@ def shrink_candidates(plan):
         if p.get("d", 1) > 1:
             yield mod(d=1, xs=[r[:1] for r in p["xs"]], xq=[r[:1] for r in p.get("xq", [])])
         if mode == "equiv":
+            if any(p.get("cb_peek") or []):
+                yield mod(cb_peek=[])
+            if p.get("b_peek"):
+                yield mod(b_peek=False)
+            if any(t in ("bn", "dropout") for t in p["pm"]):
+                yield mod(pm=[t for t in p["pm"] if t not in ("bn", "dropout")])
             if p["pm"]:
                 yield mod(pm=[])
             if p["am"]:
